@@ -67,6 +67,10 @@ class Ed25519Key(PKey):
         if signing_key is None and verifying_key is None:
             raise ValueError("need a key")
 
+        # A key loaded from a private key file must be able to verify, too.
+        if verifying_key is None:
+            verifying_key = signing_key.verify_key
+
         self._signing_key = signing_key
         self._verifying_key = verifying_key
 
@@ -201,12 +205,18 @@ class Ed25519Key(PKey):
         return m
 
     def verify_ssh_sig(self, data, msg):
-        if msg.get_text() != self.name:
+        try:
+            if msg.get_text() != self.name:
+                return False
+        except SSHException:
+            # algorithm name is not valid UTF-8
             return False
 
         try:
             self._verifying_key.verify(data, msg.get_binary())
-        except nacl.exceptions.BadSignatureError:
+        # NOTE: nacl raises its ValueError for signatures that are not exactly
+        # 64 bytes long.
+        except (nacl.exceptions.BadSignatureError, ValueError):
             return False
         else:
             return True
